@@ -291,6 +291,24 @@ def check(ctx):
     ctx.rule("R5", "sync/async agreement: both writers produce identical (pos, length, word) for every shape")
     ctx.rule("R6", "string forms: '17' for Byte/Word and 'true'/'True'/'false' for Bool are converted before the merge")
     ctx.rule("R7", "every table item is mapped to a proven shape (exhaustive over all items)")
+    ctx.rule("R8", "write-through: the structures' set_value / async_set_value hand (pos, length, newvalue) unchanged to the device-write callback on every path (no write is dropped or altered between the accessor and the connection)")
+    from ..cfg import cfg_of
+    from ..pathrules import pass_through
+    n_wt = 0
+    for cname, mname in (("GeckoStructure", "set_value"), ("GeckoAsyncStructure", "set_value"), ("GeckoAsyncStructure", "async_set_value")):
+        wfi = repo.method(cname, mname, required=False)
+        if wfi is None:
+            ctx.error(f"write-through anchor {cname}.{mname} vanished")
+            continue
+        verdict, detail = pass_through(cfg_of(wfi), wfi, 3)
+        if verdict is None:
+            ctx.error(f"{cname}.{mname}: {detail} - idiom not supported by C02.R8")
+            continue
+        n_wt += 1
+        ctx.ob("R8", f"{cname}.{mname}::write-through", verdict,
+               f"{cname}.{mname} does not always deliver the write to the device callback: {detail}; an accessor write that is dropped here produces no device write, so the item does not read back the written value",
+               wfi.loc, sample={"rule": "R8", "setter": f"{cname}.{mname}", "delegate": detail})
+    ctx.floor("R8", "structure setters analysed", n_wt, 3)
 
     shapes = {}
     per_item = []
